@@ -14,6 +14,10 @@ run in, `super().m()` and `self.m()` / `self.prop` calls are followed transitive
 * abstract-state mutations: `self.idxs_ds[...] = ...` -> "ds", `self.transform = ` -> "transform",
   `self.latlon = ` -> "latlon".
 
+* in-place writes into values that LIVE in the cache (field `inplace`, see the section "alias / in-place analysis"
+  below): the protocol theorem `history_independent` needs a stored value to be immutable; a method that writes
+  through a name that may alias `self._cached[k]` / a memo attribute breaks that silently.
+
 The extractor is part of the trusted base; harness/props/c12.py cross-checks it dynamically
 (the `_cached` key set observed after every operation of a random history must be the predicted one).
 """
@@ -180,6 +184,622 @@ def analyse_method(mi, class_props):
     return eff
 
 
+# ---------------------------------------------------------------------------------------------
+# alias / in-place analysis (C12: a value stored in the cache must never be written in place)
+#
+# Abstract value of an expression = the set of *origins* it may share memory with:
+#   "c:<key>"   the object stored under `self._cached[<key>]` / in the memo attribute `<key>` (`_seq`, `_pit`)
+#   "p:<name>"  the object the caller passed as parameter <name> (only used to build summaries of helpers / kernels)
+# The analysis is flow-sensitive inside one function (branches are joined, loops iterated twice), follows
+# `self.m(...)`, `self.prop`, `super().m(...)` and calls of the library's module-level kernels through *summaries*
+# (what the callee may return an alias of, which parameters it writes into, which cached values it writes into),
+# and specialises a callee on constant arguments (`self._check_data(x, "strord")` is analysed with name == "strord",
+# so `_check_data(x, "data")` is NOT reported to return the cached stream order). It is a may-analysis of aliasing with
+# numpy's view semantics hard-wired (tables below); everything it cannot see (containers, closures, getattr, values
+# handed out to the user earlier) is outside it - harness/props/c12.py covers that side dynamically.
+VIEW_METHODS = {"ravel", "reshape", "view", "squeeze", "transpose", "swapaxes", "diagonal"}
+VIEW_ATTRS = {"T", "flat", "real", "imag", "base"}
+VIEW_FUNCS = {"asarray", "asanyarray", "atleast_1d", "atleast_2d", "atleast_3d", "ravel", "reshape", "squeeze",
+              "transpose", "ascontiguousarray", "asfortranarray", "swapaxes", "broadcast_to", "expand_dims",
+              "moveaxis", "rollaxis", "flip", "flipud", "fliplr", "rot90", "diagonal", "nan_to_num_view"}
+COPYFALSE_FUNCS = {"array", "astype", "nan_to_num"}      # alias only with copy=False
+INPLACE_METHODS = {"fill", "sort", "partition", "put", "itemset", "resize", "setfield", "byteswap_inplace"}
+INPLACE_FUNCS = {"copyto", "put", "put_along_axis", "putmask", "place", "fill_diagonal"}   # np.f(dst, ...)
+UFUNC_OUT_POS = {**{f: 2 for f in ("add", "subtract", "multiply", "divide", "true_divide", "floor_divide", "maximum",
+                                   "minimum", "fmax", "fmin", "power", "mod", "remainder", "logical_and", "logical_or",
+                                   "logical_xor", "bitwise_and", "bitwise_or", "bitwise_xor", "hypot", "arctan2",
+                                   "greater", "less", "equal", "not_equal", "greater_equal", "less_equal", "take")},
+                 **{f: 1 for f in ("negative", "abs", "absolute", "sqrt", "exp", "log", "log10", "log2", "sign", "square",
+                                   "logical_not", "invert", "floor", "ceil", "rint", "trunc", "isnan", "isfinite",
+                                   "cumsum", "cumprod")},
+                 "clip": 3}
+MEMO_ARRAYS = {"_seq", "_pit"}     # `_nnodes` is an int
+UNK = object()                      # "not a known constant"
+NUMPY_NAMES = {"np", "numpy"}
+
+
+class Val:
+    __slots__ = ("o", "c", "prov", "elts")
+
+    def __init__(self, o=frozenset(), c=UNK, prov="", elts=None):
+        self.o, self.c, self.prov, self.elts = frozenset(o), c, prov, elts
+
+    def with_prov(self, prov):
+        return Val(self.o, self.c, prov if self.o else "", self.elts)
+
+
+FRESH = Val()
+
+
+def _join_val(a, b):
+    if a is b:
+        return a
+    c = a.c if (a.c is not UNK and b.c is not UNK and type(a.c) is type(b.c) and a.c == b.c) else UNK
+    return Val(a.o | b.o, c, a.prov or b.prov)
+
+
+def _join_env(a, b):
+    if a is None:
+        return b
+    if b is None:
+        return a
+    out = {}
+    for k in set(a) | set(b):
+        out[k] = _join_val(a.get(k, FRESH), b.get(k, FRESH)) if (k in a and k in b) else \
+            Val((a.get(k) or b.get(k)).o, UNK, (a.get(k) or b.get(k)).prov)
+    return out
+
+
+def _short(node, n=70):
+    try:
+        t = ast.unparse(node)
+    except Exception:  # noqa: BLE001
+        t = "<expr>"
+    t = " ".join(t.split())
+    return t if len(t) <= n else t[:n - 3] + "..."
+
+
+def _chain_key(node):
+    """`x` / `self.a.b` -> key of the environment, None for anything else"""
+    parts = []
+    while isinstance(node, ast.Attribute):
+        parts.append(node.attr)
+        node = node.value
+    if isinstance(node, ast.Name):
+        parts.append(node.id)
+        return ".".join(reversed(parts))
+    return None
+
+
+def _basic_index(ix):
+    """True if the subscript is basic indexing for certain (result is a view)"""
+    if isinstance(ix, ast.Slice):
+        return True
+    if isinstance(ix, ast.Constant) and (ix.value is None or ix.value is Ellipsis):
+        return True
+    if isinstance(ix, ast.Tuple):
+        return any(isinstance(e, ast.Slice) or (isinstance(e, ast.Constant) and (e.value is None or e.value is Ellipsis))
+                   for e in ix.elts) and all(
+            isinstance(e, (ast.Slice, ast.Constant)) or (isinstance(e, ast.UnaryOp) and isinstance(e.operand, ast.Constant))
+            for e in ix.elts)
+    return False
+
+
+class Summary:
+    def __init__(self):
+        self.ret = set()        # origins the return value may alias
+        self.pw = {}            # parameter written in place -> description
+        self.cw = []            # (cache key, description) written in place
+
+
+class Library:
+    """all module-level functions of the package + import aliases per module"""
+
+    def __init__(self, repo):
+        self.funcs, self.alias = {}, {}
+        pkg = os.path.join(repo, "pyflwdir")
+        for fn in sorted(os.listdir(pkg)):
+            if not fn.endswith(".py"):
+                continue
+            mod = fn[:-3]
+            try:
+                tree = ast.parse(open(os.path.join(pkg, fn)).read())
+            except SyntaxError:
+                continue
+            self.funcs[mod] = {n.name: n for n in tree.body if isinstance(n, ast.FunctionDef)}
+            al = {}
+            for n in tree.body:
+                if isinstance(n, ast.ImportFrom) and n.level >= 1 or (isinstance(n, ast.ImportFrom) and (n.module or "").startswith("pyflwdir")):
+                    src = (n.module or "").replace("pyflwdir.", "").replace("pyflwdir", "")
+                    for a in n.names:
+                        if not src:
+                            al[a.asname or a.name] = ("mod", a.name)
+                        else:
+                            al[a.asname or a.name] = ("func", src, a.name)
+            self.alias[mod] = al
+
+    def resolve(self, mod, func_node):
+        """-> (module, FunctionDef) of a called library function, or None"""
+        al = self.alias.get(mod, {})
+        if isinstance(func_node, ast.Name):
+            if func_node.id in self.funcs.get(mod, {}):
+                return mod, self.funcs[mod][func_node.id]
+            a = al.get(func_node.id)
+            if a and a[0] == "func" and a[2] in self.funcs.get(a[1], {}):
+                return a[1], self.funcs[a[1]][a[2]]
+        elif isinstance(func_node, ast.Attribute) and isinstance(func_node.value, ast.Name):
+            a = al.get(func_node.value.id)
+            if a and a[0] == "mod" and func_node.attr in self.funcs.get(a[1], {}):
+                return a[1], self.funcs[a[1]][func_node.attr]
+        return None
+
+
+class AliasAnalysis:
+    def __init__(self, lib, classes, parents, resolve, props_of, modof):
+        self.lib, self.classes, self.parents, self.resolve_m, self.props_of, self.modof = lib, classes, parents, resolve, props_of, modof
+        self.memo, self.stack = {}, set()
+
+    # -- summaries -------------------------------------------------------------------------
+    def summary(self, ctx, fn, consts):
+        """ctx = ("m", dyn, cls_def) | ("f", module); consts = {param: python constant}"""
+        key = (ctx, fn.name, tuple(sorted((k, repr(v)) for k, v in consts.items())))
+        if key in self.memo:
+            return self.memo[key]
+        if key in self.stack:
+            return Summary()            # recursion: optimistic (the outer call sees the effects)
+        self.stack.add(key)
+        try:
+            s = _FnRun(self, ctx, fn, consts).run()
+        finally:
+            self.stack.discard(key)
+        self.memo[key] = s
+        return s
+
+
+def _params_of(fn, skip_self):
+    a = fn.args
+    pos = [x.arg for x in a.posonlyargs + a.args]
+    defaults = {}
+    for name, d in zip(reversed(pos), reversed(a.defaults)):
+        defaults[name] = d
+    for x, d in zip(a.kwonlyargs, a.kw_defaults):
+        if d is not None:
+            defaults[x.arg] = d
+    if skip_self and pos:
+        pos = pos[1:]
+    return pos, [x.arg for x in a.kwonlyargs], defaults, (a.vararg.arg if a.vararg else None), (a.kwarg.arg if a.kwarg else None)
+
+
+class _FnRun:
+    def __init__(self, an, ctx, fn, consts):
+        self.an, self.ctx, self.fn, self.sum = an, ctx, fn, Summary()
+        self.is_method = ctx[0] == "m"
+        pos, kwo, defaults, va, kw = _params_of(fn, self.is_method)
+        self.env = {}
+        for p in pos + kwo:
+            self.env[p] = Val({"p:" + p}, consts.get(p, UNK), "parameter `%s`" % p)
+        for p in (va, kw):
+            if p:
+                self.env[p] = FRESH
+
+    def run(self):
+        self.block(self.fn.body, self.env)
+        return self.sum
+
+    # -- recording -------------------------------------------------------------------------
+    def write(self, v, what):
+        for o in sorted(v.o):
+            d = what + (" [%s]" % v.prov if v.prov and not v.prov.startswith("parameter") else "")
+            if o.startswith("c:"):
+                if (o[2:], d) not in self.sum.cw:
+                    self.sum.cw.append((o[2:], d))
+            else:
+                self.sum.pw.setdefault(o[2:], d)
+
+    # -- constants / tests -----------------------------------------------------------------
+    def const(self, e, env):
+        if isinstance(e, ast.Constant):
+            return e.value
+        k = _chain_key(e)
+        if k is not None and k in env:
+            return env[k].c
+        return UNK
+
+    def test(self, t, env):
+        """True / False / None (unknown)"""
+        if isinstance(t, ast.BoolOp):
+            vs = [self.test(v, env) for v in t.values]
+            if isinstance(t.op, ast.And):
+                return False if any(v is False for v in vs) else (True if all(v is True for v in vs) else None)
+            return True if any(v is True for v in vs) else (False if all(v is False for v in vs) else None)
+        if isinstance(t, ast.UnaryOp) and isinstance(t.op, ast.Not):
+            v = self.test(t.operand, env)
+            return None if v is None else (not v)
+        if isinstance(t, ast.Compare) and len(t.ops) == 1:
+            a, b = self.const(t.left, env), self.const(t.comparators[0], env)
+            if a is UNK or b is UNK:
+                return None
+            op = t.ops[0]
+            if isinstance(op, (ast.Is, ast.Eq)):
+                return (a is b) if (a is None or b is None) else (type(a) is type(b) and a == b)
+            if isinstance(op, (ast.IsNot, ast.NotEq)):
+                return (a is not b) if (a is None or b is None) else not (type(a) is type(b) and a == b)
+            return None
+        c = self.const(t, env)
+        if c is UNK:
+            return None
+        return bool(c)
+
+    def narrow(self, t, positive, env):
+        """refine env under the assumption that test `t` evaluates to `positive`"""
+        if isinstance(t, ast.BoolOp):
+            if (isinstance(t.op, ast.And) and positive) or (isinstance(t.op, ast.Or) and not positive):
+                for v in t.values:
+                    self.narrow(v, positive, env)
+            return
+        if isinstance(t, ast.UnaryOp) and isinstance(t.op, ast.Not):
+            return self.narrow(t.operand, not positive, env)
+        if isinstance(t, ast.Compare) and len(t.ops) == 1 and isinstance(t.comparators[0], ast.Constant) \
+                and t.comparators[0].value is None:
+            k = _chain_key(t.left)
+            isnone = isinstance(t.ops[0], (ast.Is, ast.Eq)) == positive and isinstance(t.ops[0], (ast.Is, ast.Eq, ast.IsNot, ast.NotEq))
+            if k is not None and isnone and (isinstance(t.left, ast.Name)):
+                env[k] = Val((), None)
+
+    # -- calls ---------------------------------------------------------------------------------
+    def callee(self, call, env):
+        """-> (ctx, FunctionDef, display name) of a call the analysis can follow, or None"""
+        f = call.func
+        if self.is_method and isinstance(f, ast.Attribute):
+            _, dyn, cls_def = self.ctx
+            if isinstance(f.value, ast.Name) and f.value.id == "self":
+                cd, mi = self.an.resolve_m(dyn, f.attr)
+                if mi is not None and not mi.is_property:
+                    return ("m", dyn, cd), mi.node, "self." + f.attr
+            if isinstance(f.value, ast.Call) and isinstance(f.value.func, ast.Name) and f.value.func.id == "super":
+                cd, mi = self.an.resolve_m(cls_def, f.attr, True)
+                if mi is not None:
+                    return ("m", dyn, cd), mi.node, "super()." + f.attr
+        mod = self.an.modof[self.ctx[2]] if self.is_method else self.ctx[1]
+        r = self.an.lib.resolve(mod, f)
+        if r is not None:
+            return ("f", r[0]), r[1], r[0] + "." + r[1].name
+        return None
+
+    def bind(self, call, fn, is_method, env):
+        """argument values by callee parameter name"""
+        pos, kwo, defaults, va, kw = _params_of(fn, is_method)
+        args = {}
+        star = any(isinstance(a, ast.Starred) for a in call.args)
+        for p, a in zip(pos, call.args):
+            if isinstance(a, ast.Starred):
+                break               # parameters after `*args` are bound to something unknown
+            args[p] = self.val(a, env)
+        known = True
+        for k in call.keywords:
+            if k.arg is None:
+                known = False        # **kwargs: unknown parameters may be bound
+            elif k.arg in pos or k.arg in kwo:
+                args[k.arg] = self.val(k.value, env)
+        consts = {}
+        for p in pos + kwo:
+            if p in args:
+                if args[p].c is not UNK:
+                    consts[p] = args[p].c
+            elif p in defaults and known and not star and isinstance(defaults[p], ast.Constant):
+                consts[p] = defaults[p].value
+        return args, consts
+
+    def call_summary(self, call, env):
+        c = self.callee(call, env)
+        if c is None:
+            return None
+        ctx, fn, disp = c
+        args, consts = self.bind(call, fn, ctx[0] == "m", env)
+        return self.an.summary(ctx, fn, consts), args, disp
+
+    def subst(self, origins, args):
+        out, prov = set(), ""
+        for o in origins:
+            if o.startswith("p:"):
+                v = args.get(o[2:])
+                if v is not None:
+                    out |= v.o
+                    prov = prov or v.prov
+            else:
+                out.add(o)
+        return out, prov
+
+    # -- abstract value of an expression -----------------------------------------------------
+    def val(self, e, env):
+        if isinstance(e, ast.Constant):
+            return Val((), e.value)
+        k = _chain_key(e)
+        if k is not None and k in env:
+            return env[k]
+        if isinstance(e, ast.Name):
+            return FRESH
+        if isinstance(e, ast.Attribute):
+            if self.is_method and isinstance(e.value, ast.Name) and e.value.id == "self":
+                if e.attr in MEMO_ARRAYS:
+                    return Val({"c:" + e.attr}, UNK, "self." + e.attr)
+                _, dyn, _cd = self.ctx
+                cd, mi = self.an.resolve_m(dyn, e.attr)
+                if mi is not None and mi.is_property:
+                    s = self.an.summary(("m", dyn, cd), mi.node, {})
+                    return Val({o for o in s.ret if o.startswith("c:")}, UNK, "property self." + e.attr)
+                return FRESH
+            if e.attr in VIEW_ATTRS:
+                return self.val(e.value, env)
+            return FRESH
+        if isinstance(e, ast.Subscript):
+            if _is_cached(e.value):
+                kk = e.slice.value if isinstance(e.slice, ast.Constant) and isinstance(e.slice.value, str) else "<dynamic>"
+                return Val({"c:" + kk}, UNK, _short(e))
+            b = self.val(e.value, env)
+            if b.elts is not None and isinstance(e.slice, ast.Constant) and isinstance(e.slice.value, int) \
+                    and -len(b.elts) <= e.slice.value < len(b.elts):
+                return b.elts[e.slice.value]
+            return Val(b.o, UNK, b.prov) if (b.o and _basic_index(e.slice)) else FRESH
+        if isinstance(e, ast.IfExp):
+            t = self.test(e.test, env)
+            if t is True:
+                return self.val(e.body, env)
+            if t is False:
+                return self.val(e.orelse, env)
+            return _join_val(self.val(e.body, env), self.val(e.orelse, env))
+        if isinstance(e, ast.BoolOp):
+            v = FRESH
+            for x in e.values:
+                v = _join_val(v, self.val(x, env))
+            return Val(v.o, UNK, v.prov)
+        if isinstance(e, ast.NamedExpr):
+            return self.val(e.value, env)
+        if isinstance(e, (ast.Tuple, ast.List)):
+            elts = [self.val(x, env) for x in e.elts]
+            o = set()
+            for x in elts:
+                o |= x.o
+            return Val(o, UNK, next((x.prov for x in elts if x.prov), ""), elts)
+        if isinstance(e, ast.Starred):
+            return self.val(e.value, env)
+        if isinstance(e, ast.Call):
+            f = e.func
+            if isinstance(f, ast.Attribute):
+                if _is_cached(f.value):
+                    if f.attr in ("get", "setdefault") and e.args:
+                        kk = e.args[0].value if isinstance(e.args[0], ast.Constant) and isinstance(e.args[0].value, str) else "<dynamic>"
+                        v = Val({"c:" + kk}, UNK, _short(e))
+                        for a in e.args[1:]:
+                            v = _join_val(v, self.val(a, env))
+                        return Val(v.o, UNK, _short(e))
+                    return FRESH
+                cs = self.call_summary(e, env)
+                if cs is not None:
+                    s, args, disp = cs
+                    o, prov = self.subst(s.ret, args)
+                    return Val(o, UNK, _short(e))
+                isnp = isinstance(f.value, ast.Name) and f.value.id in NUMPY_NAMES
+                copy_false = any(k.arg == "copy" and isinstance(k.value, ast.Constant) and k.value.value is False for k in e.keywords)
+                if isnp:
+                    if (f.attr in VIEW_FUNCS or (f.attr in COPYFALSE_FUNCS and copy_false)) and e.args:
+                        b = self.val(e.args[0], env)
+                        return Val(b.o, UNK, b.prov)
+                    return FRESH
+                if f.attr in VIEW_METHODS or (f.attr in COPYFALSE_FUNCS and copy_false):
+                    b = self.val(f.value, env)
+                    return Val(b.o, UNK, b.prov)
+                return FRESH
+            cs = self.call_summary(e, env)
+            if cs is not None:
+                s, args, disp = cs
+                o, prov = self.subst(s.ret, args)
+                return Val(o, UNK, _short(e))
+            return FRESH
+        return FRESH       # arithmetic, comparisons, comprehensions, ... create new objects
+
+    # -- effects of the calls inside one expression --------------------------------------------
+    def effects(self, node, env):
+        if node is None:
+            return
+        todo = [node]
+        while todo:
+            n = todo.pop()
+            if isinstance(n, (ast.FunctionDef, ast.Lambda, ast.AsyncFunctionDef, ast.ClassDef)):
+                continue
+            todo.extend(ast.iter_child_nodes(n))
+            if not isinstance(n, ast.Call):
+                continue
+            f = n.func
+            fname = _short(f, 50)
+            for k in n.keywords:
+                if k.arg == "out":
+                    self.write(self.val(k.value, env), "`out=%s` of %s(...)" % (_short(k.value, 30), fname))
+            cs = None if (isinstance(f, ast.Attribute) and _is_cached(f.value)) else self.call_summary(n, env)
+            if cs is not None:
+                s, args, disp = cs
+                for key, d in s.cw:
+                    d2 = "in %s: %s" % (disp, d)
+                    if (key, d2) not in self.sum.cw and not any(kk == key and dd.endswith(d) for kk, dd in self.sum.cw):
+                        self.sum.cw.append((key, d2))
+                for p, d in s.pw.items():
+                    if p in args:
+                        self.write(args[p], "passed as `%s` to %s, which writes into it (%s)" % (p, disp, d))
+                continue
+            if isinstance(f, ast.Attribute):
+                isnp = isinstance(f.value, ast.Name) and f.value.id in NUMPY_NAMES
+                if isnp:
+                    if f.attr in INPLACE_FUNCS and n.args:
+                        self.write(self.val(n.args[0], env), "np.%s(%s, ...)" % (f.attr, _short(n.args[0], 30)))
+                    if f.attr in UFUNC_OUT_POS and len(n.args) > UFUNC_OUT_POS[f.attr]:
+                        a = n.args[UFUNC_OUT_POS[f.attr]]
+                        self.write(self.val(a, env), "positional out argument `%s` of np.%s" % (_short(a, 30), f.attr))
+                elif f.attr == "at" and isinstance(f.value, ast.Attribute) and isinstance(f.value.value, ast.Name) \
+                        and f.value.value.id in NUMPY_NAMES and n.args:
+                    self.write(self.val(n.args[0], env), "np.%s.at(%s, ...)" % (f.value.attr, _short(n.args[0], 30)))
+                elif f.attr in INPLACE_METHODS:
+                    self.write(self.val(f.value, env), "in-place method `%s.%s(...)`" % (_short(f.value, 30), f.attr))
+                elif f.attr == "byteswap" and any(k.arg == "inplace" for k in n.keywords):
+                    self.write(self.val(f.value, env), "in-place method `%s.byteswap(inplace=True)`" % _short(f.value, 30))
+
+    # -- statements ------------------------------------------------------------------------------
+    def assign_to(self, t, v, env, text):
+        if isinstance(t, (ast.Tuple, ast.List)):
+            for i, x in enumerate(t.elts):
+                if isinstance(x, ast.Starred):
+                    self.assign_to(x.value, Val(v.o, UNK, v.prov), env, text)
+                elif v.elts is not None and len(v.elts) == len(t.elts):
+                    self.assign_to(x, v.elts[i], env, text)
+                else:
+                    self.assign_to(x, Val(v.o, UNK, v.prov), env, text)
+            return
+        if isinstance(t, ast.Subscript):
+            self.write(self.val(t.value, env), "subscript assignment `%s = ...`" % _short(t, 40))
+            return
+        k = _chain_key(t)
+        if isinstance(t, ast.Attribute):
+            b = self.val(t.value, env)
+            if b.o and t.attr in ("shape", "dtype", "strides", "flat", "real", "imag"):
+                self.write(b, "attribute assignment `%s = ...`" % _short(t, 40))
+                return
+            if self.is_method and k is not None and k.startswith("self.") and k.count(".") == 1 and \
+                    (t.attr in MEMO_ATTRS or t.attr == "_cached" or t.attr in self.an.props_of(self.ctx[1])):
+                return      # memo attributes / properties are resolved by `val`, not tracked as locals
+        if k is not None:
+            env[k] = v.with_prov(text) if not v.prov or len(text) < 90 else v
+
+    def block(self, stmts, env):
+        """returns the environment after the block, None if control never falls through"""
+        for st in stmts:
+            if env is None:
+                return None
+            env = self.stmt(st, env)
+        return env
+
+    def stmt(self, st, env):
+        if isinstance(st, (ast.FunctionDef, ast.AsyncFunctionDef, ast.ClassDef, ast.Import, ast.ImportFrom, ast.Pass,
+                           ast.Global, ast.Nonlocal, ast.Break, ast.Continue)):
+            return env
+        if isinstance(st, ast.Return):
+            self.effects(st.value, env)
+            if st.value is not None:
+                self.sum.ret |= self.val(st.value, env).o
+            return None
+        if isinstance(st, ast.Raise):
+            self.effects(st.exc, env)
+            return None
+        if isinstance(st, ast.Assign):
+            self.effects(st.value, env)
+            v = self.val(st.value, env)
+            for t in st.targets:
+                self.effects(t, env)
+                self.assign_to(t, v, env, "%s = %s" % (_short(t, 30), _short(st.value, 60)))
+            return env
+        if isinstance(st, ast.AnnAssign):
+            if st.value is not None:
+                self.effects(st.value, env)
+                self.assign_to(st.target, self.val(st.value, env), env, "%s = %s" % (_short(st.target, 30), _short(st.value, 60)))
+            return env
+        if isinstance(st, ast.AugAssign):
+            self.effects(st.value, env)
+            self.effects(st.target, env)
+            t = st.target
+            opname = {"Add": "+", "Sub": "-", "Mult": "*", "Div": "/", "FloorDiv": "//", "Mod": "%", "Pow": "**", "BitAnd": "&",
+                      "BitOr": "|", "BitXor": "^", "LShift": "<<", "RShift": ">>", "MatMult": "@"}.get(type(st.op).__name__, "?")
+            if isinstance(t, ast.Subscript):
+                self.write(self.val(t.value, env), "augmented subscript assignment `%s %s= ...`" % (_short(t, 40), opname))
+            else:
+                # `a op= b` on an ndarray is in place; the name keeps denoting the same object
+                self.write(self.val(t, env), "augmented assignment `%s %s= ...`" % (_short(t, 40), opname))
+                k = _chain_key(t)
+                if k is not None and k in env:
+                    env[k] = Val(env[k].o, UNK, env[k].prov)
+            return env
+        if isinstance(st, ast.Expr):
+            self.effects(st.value, env)
+            return env
+        if isinstance(st, ast.If):
+            self.effects(st.test, env)
+            t = self.test(st.test, env)
+            e1 = e0 = None
+            if t is not False:
+                e1 = dict(env)
+                self.narrow(st.test, True, e1)
+                e1 = self.block(st.body, e1)
+            if t is not True:
+                e0 = dict(env)
+                self.narrow(st.test, False, e0)
+                e0 = self.block(st.orelse, e0)
+            return _join_env(e1, e0)
+        if isinstance(st, (ast.For, ast.AsyncFor, ast.While)):
+            if isinstance(st, ast.While):
+                self.effects(st.test, env)
+            else:
+                self.effects(st.iter, env)
+            cur = dict(env)
+            for _ in range(2):
+                b = dict(cur)
+                if not isinstance(st, ast.While):
+                    self.assign_to(st.target, FRESH, b, "")
+                b = self.block(st.body, b)
+                cur = _join_env(cur, b)
+            e2 = self.block(st.orelse, dict(cur)) if st.orelse else cur
+            return _join_env(cur, e2)
+        if isinstance(st, (ast.With, ast.AsyncWith)):
+            for it in st.items:
+                self.effects(it.context_expr, env)
+                if it.optional_vars is not None:
+                    self.assign_to(it.optional_vars, FRESH, env, "")
+            return self.block(st.body, env)
+        if isinstance(st, ast.Try):
+            e1 = self.block(st.body, dict(env))
+            alt = _join_env(dict(env), e1)
+            outs = [self.block(st.orelse, dict(e1)) if (e1 is not None and st.orelse) else e1]
+            for h in st.handlers:
+                outs.append(self.block(h.body, dict(alt) if alt is not None else None) if alt is not None else None)
+            res = None
+            for o in outs:
+                res = _join_env(res, o)
+            if st.finalbody:
+                res = self.block(st.finalbody, res if res is not None else dict(env))
+            return res
+        if isinstance(st, ast.Delete):
+            return env
+        if isinstance(st, ast.Assert):
+            return env
+        # anything else (match, ...): scan for effects, keep the environment
+        self.effects(st, env)
+        return env
+
+
+def inplace_analysis(repo, classes, parents, resolve, props_of):
+    """(dyn class, method) -> list of {"target": cache key, "via": description} ; plus the kernel summaries used"""
+    lib = Library(repo)
+    modof = {"Flwdir": "flwdir", "FlwdirRaster": "pyflwdir"}
+    an = AliasAnalysis(lib, classes, parents, resolve, props_of, modof)
+    out = {}
+    for dyn in ("Flwdir", "FlwdirRaster"):
+        names = set()
+        c = dyn
+        while c is not None:
+            names |= set(classes[c])
+            c = parents[c]
+        for name in names:
+            cd, mi = resolve(dyn, name)
+            s = an.summary(("m", dyn, cd), mi.node, {})
+            seen, rows = set(), []
+            for key, d in s.cw:
+                if (key, d) not in seen:
+                    seen.add((key, d))
+                    rows.append({"target": key, "via": d})
+            out[(dyn, name)] = rows
+    kernels = {}
+    for (ctx, fname, consts), s in an.memo.items():
+        if ctx[0] == "f" and s.pw:
+            kernels["%s.%s" % (ctx[1], fname)] = sorted(s.pw)
+    return out, kernels
+
+
 def _must(x, mutations):
     """a pop / reset counts for a mutator only if it executes on every path on which a mutation
     executes: its guard path is a prefix of the guard path of every mutation (no early returns assumed)"""
@@ -257,6 +877,10 @@ def extract(repo):
             out["mutates"] += [{"key": x["key"], "g": pre + (("in", c["name"]),) + x["g"]} for x in sub["mutates"]]
         return out
 
+    try:
+        inplace, _kernels = inplace_analysis(repo, classes, parents, resolve, props_of)
+    except RecursionError:
+        inplace = None
     table = []
     for dyn in ("Flwdir", "FlwdirRaster"):
         names = set()
@@ -279,6 +903,9 @@ def extract(repo):
                 "memo_set": sorted({(m["attr"], tuple(m["taint"])) for m in eff["memo_set"]}),
                 "memo_reset": sorted({x["key"] for x in eff["memo_reset"] if _must(x, eff["mutates"])}),
                 "mutates": sorted({x["key"] for x in eff["mutates"]}),
+                # in-place writes through a name that may alias a cached value (must be empty, see Entry.coherent)
+                "inplace": (inplace[(dyn, name)] if inplace is not None else
+                            [{"target": "<unknown>", "via": "alias analysis failed"}]),
             }
             table.append(entry)
     return table
@@ -297,22 +924,28 @@ def to_lean(table):
            "structure CacheWrite where", "  key : String", "  taint : List String", "  flagGuarded : Bool", "  deriving DecidableEq, Repr",
            "structure CacheRead where", "  key : String", "  unguarded : List String", "  deriving DecidableEq, Repr",
            "structure MemoSet where", "  attr : String", "  taint : List String", "  deriving DecidableEq, Repr",
+           "/-- an in-place write through a name that may alias the value stored under `target` -/",
+           "structure InPlace where", "  target : String", "  via : String", "  deriving DecidableEq, Repr",
            "structure MethodEntry where", "  cls : String", "  name : String", "  isPublic : Bool",
            "  reads : List CacheRead", "  writes : List CacheWrite", "  pops : List String",
-           "  memoSet : List MemoSet", "  memoReset : List String", "  mutates : List String", "  deriving DecidableEq, Repr", "",
+           "  memoSet : List MemoSet", "  memoReset : List String", "  mutates : List String",
+           "  inplace : List InPlace", "  deriving DecidableEq, Repr", "",
            "def cacheTable : List MethodEntry := ["]
     rows = []
     for e in table:
-        if not (e["reads"] or e["writes"] or e["pops"] or e["memo_set"] or e["memo_reset"] or e["mutates"]):
+        if not (e["reads"] or e["writes"] or e["pops"] or e["memo_set"] or e["memo_reset"] or e["mutates"]
+                or e.get("inplace")):
             continue
         rows.append(
-            "  { cls := %s, name := %s, isPublic := %s,\n    reads := [%s],\n    writes := [%s],\n    pops := %s,\n    memoSet := [%s], memoReset := %s, mutates := %s }" % (
+            "  { cls := %s, name := %s, isPublic := %s,\n    reads := [%s],\n    writes := [%s],\n    pops := %s,\n    memoSet := [%s], memoReset := %s, mutates := %s,\n    inplace := [%s] }" % (
                 s(e["cls"]), s(e["name"]), "true" if e["public"] else "false",
                 ", ".join("{ key := %s, unguarded := %s }" % (s(k), sl(u)) for k, u in e["reads"]),
                 ", ".join("{ key := %s, taint := %s, flagGuarded := %s }" % (s(k), sl(t), "true" if f else "false") for k, t, f in e["writes"]),
                 sl(e["pops"]),
                 ", ".join("{ attr := %s, taint := %s }" % (s(a), sl(t)) for a, t in e["memo_set"]),
-                sl(e["memo_reset"]), sl(e["mutates"])))
+                sl(e["memo_reset"]), sl(e["mutates"]),
+                ", ".join("{ target := %s, via := %s }" % (s(w["target"]), s(w["via"].replace("\\", "/").replace("\n", " ").replace("--", "- -").replace("/-", "/ -").replace("-/", "- /")))
+                          for w in e.get("inplace", []))))
     out.append(",\n".join(rows))
     out.append("]")
     out.append("")
@@ -329,7 +962,7 @@ def generate(gen_dir, write_if_changed):
         # the check to report (broken obligation -> escalated history search), not a crash of the check
         table = [{"cls": "Flwdir", "name": "<extraction failed: %s>" % type(e).__name__, "public": True, "params": [],
                   "reads": [("<unknown>", ["<unknown>"])], "writes": [("<unknown>", ["<unknown>"], False)], "pops": [],
-                  "memo_set": [], "memo_reset": [], "mutates": []}]
+                  "memo_set": [], "memo_reset": [], "mutates": [], "inplace": []}]
     json_path = os.path.join(os.path.dirname(os.path.abspath(__file__)), "..", "lean", "PfVerif", "Generated", "cache_protocol.json")
     changed = write_if_changed(os.path.join(gen_dir, "CacheProtocol.lean"), to_lean(table))
     write_if_changed(os.path.join(gen_dir, "cache_protocol.json"), json.dumps(table, indent=1, default=list) + "\n")
@@ -341,5 +974,5 @@ if __name__ == "__main__":
     sys.path.insert(0, os.path.dirname(os.path.abspath(__file__)))
     from common import REPO
     for e in extract(REPO):
-        if e["reads"] or e["writes"] or e["pops"] or e["memo_set"] or e["memo_reset"] or e["mutates"]:
+        if e["reads"] or e["writes"] or e["pops"] or e["memo_set"] or e["memo_reset"] or e["mutates"] or e["inplace"]:
             print(e["cls"], e["name"], {k: v for k, v in e.items() if k not in ("cls", "name", "params", "public") and v})
